@@ -68,12 +68,24 @@ pub type InputArrayOp<'a> = Rc<dyn Fn(&mut Value) -> Result<(), InputPluginError
 /// input queries should always remain wrapped in a top-level JSON Array
 /// so that we can perform operations like grid search, which transform a
 /// single query into multiple child queries.
-pub fn json_array_op<'a>(query: &'a mut Value, op: InputArrayOp<'a>) -> Result<(), Value> {
+///
+/// a query for which the operation fails is removed from the array and its error
+/// response is appended to `errors`; the remaining queries are not affected.
+pub fn json_array_op<'a>(
+    query: &'a mut Value,
+    op: InputArrayOp<'a>,
+    errors: &mut Vec<Value>,
+) -> Result<(), Value> {
     match query {
         Value::Array(queries) => {
-            for q in queries.iter_mut() {
-                op(q).map_err(|e| package_error(q, e))?;
+            let mut kept: Vec<Value> = Vec::with_capacity(queries.len());
+            for mut q in queries.drain(..) {
+                match op(&mut q) {
+                    Ok(()) => kept.push(q),
+                    Err(e) => errors.push(package_error(&mut q, e)),
+                }
             }
+            *queries = kept;
             json_array_flatten_in_place(query)
         }
         other => {
